@@ -603,6 +603,9 @@ func runC04(c *run.Ctx) {
 	hist += c04Kennel(c)
 	hist += c04OmittedAndShared(c, s, sdl, g, types)
 	hist += c04Relaxed(c)
+	// under reflection the "resolver" is a Go method: each parameter must receive the value the client wrote for ITS argument
+	// (order given by RegisterField, also when registered after a first request) - judged against the direct Go call
+	c02Methods(c)
 	c.MinNontriv = (total + hist) / 3
 	c.Set("requests", total)
 }
